@@ -151,8 +151,14 @@ def check(repo: Repo, R) -> None:
             why="flatname returns a name that is already taken")
     # the collision step appends to the name (it cannot loop forever on the same name) and the length guard fails
     noret = noreturn_set(repo)
-    grows = any(isinstance(n, ast.AugAssign) and isinstance(n.op, ast.Add) and ast.unparse(n.target) == "name" for n in au.walk_no_nested(ff.node))
-    lim = any(isinstance(n, ast.If) and "len(name)" in ast.unparse(n.test) and au.raises(n.body, noret) for n in au.walk_no_nested(ff.node))
+    rnames = {ast.unparse(rn.ast.value) for rn in rets if rn.ast.value is not None}
+    rv = rnames.pop() if len(rnames) == 1 else "name"
+    loops = [n for n in au.walk_no_nested(ff.node) if isinstance(n, ast.While)]
+    grows = any(isinstance(n, ast.AugAssign) and isinstance(n.op, ast.Add) and ast.unparse(n.target) == rv and isinstance(n.value, ast.Constant) and isinstance(n.value.value, str) and n.value.value for lp in loops for n in ast.walk(lp))
+    # the length is checked for every candidate: before the loop (or at its head) and after each growth step
+    lims = [n for n in au.walk_no_nested(ff.node) if isinstance(n, ast.If) and f"len({rv})" in ast.unparse(n.test) and (au.raises(n.body, noret) != au.raises(n.orelse, noret))]
+    in_loop = any(any(x is n for x in ast.walk(lp)) for lp in loops for n in lims)
+    lim = bool(lims) and in_loop
     R.check(grows and lim, rule2, key_of(ff, "termination"), ff.site, f"on a collision the candidate grows ({grows}); over-long names fail ({lim})", why="flatname loops forever or returns an over-long name")
     join = bool(pat.find("'_'.join(segments)", ff.node))
     R.check(join, rule2, key_of(ff, "join"), ff.site, f"the base name joins the segments with '_': {join}", why="flattened names differ from the documented inst_port / bundle_member form")
